@@ -33,6 +33,7 @@
 #include <signal.h>
 #include <unistd.h>
 #include <pthread.h>
+#include <semaphore.h>
 #include <poll.h>
 #include <time.h>
 #include <sys/socket.h>
@@ -71,6 +72,16 @@ static long n_req_ok, n_req_fail, n_conn_add, n_conn_tcp, n_add_fail, n_susp, n_
             n_double_complete, n_body_mismatch, n_late_add;
 static long auth_res[32];
 
+/* deterministic scenarios run before the load phase */
+static int pin_state;            /* 0 idle, 1 armed: the next NOTIFY_STARTED triggers the helper, 2 triggered */
+static sem_t pin_go, pin_done;
+static int pin_fd_b = -1;        /* client end of the connection added during the take-over */
+static int pin_mod = 1, pin_target;
+static int quiet_delay_ms;       /* the resumer waits this long before MHD_resume_connection() */
+static int resp_tmo = 6000;
+static int sc_pinadd = -1, sc_quiet = -1;   /* -1 not run, 0 ok, 1 failed */
+static long sc_quiet_ms = -1, sc_pin_ms = -1;
+
 static int conn_started[MAXCONN];   /* per connection slot: notifications seen */
 static int conn_closed[MAXCONN];
 static long conn_slots;
@@ -99,6 +110,7 @@ static void *resumer_main (void *arg)
     pthread_mutex_unlock (&q_lock);
     if (NULL != c)
     {
+      if (0 != LD (quiet_delay_ms)) usleep ((useconds_t) LD (quiet_delay_ms) * 1000u);
       if (0 == (rand_r (&seed) & 3)) usleep ((useconds_t) (rand_r (&seed) % 1500));
       MHD_resume_connection (c);
       INC (n_resume);
@@ -139,7 +151,19 @@ static void conn_cb (void *cls, struct MHD_Connection *c, void **sock_ctx, enum 
   (void) cls; (void) c;
   if (MHD_CONNECTION_NOTIFY_STARTED == code)
   {
-    long s = INC (conn_slots) - 1;
+    long s;
+    int armed = 1;
+    if (__atomic_compare_exchange_n (&pin_state, &armed, 2, 0, __ATOMIC_SEQ_CST, __ATOMIC_SEQ_CST))
+    {
+      /* the daemon thread is inside new_connections_list_process_(): let another thread add a
+       * connection right now and wait until MHD_add_connection() has returned */
+      struct timespec ts;
+      sem_post (&pin_go);
+      clock_gettime (CLOCK_REALTIME, &ts);
+      ts.tv_sec += 3;
+      (void) sem_timedwait (&pin_done, &ts);
+    }
+    s = INC (conn_slots) - 1;
     if (s >= MAXCONN) { *sock_ctx = NULL; return; }
     conn_started[s] = 1;
     *sock_ctx = &conn_started[s];
@@ -259,7 +283,7 @@ static int send_all (int fd, const char *b, size_t n)
 /* reads one response; returns status code (>0), fills nonce if a WWW-Authenticate header carries one; -1 on error */
 static int read_response (int fd, char *nonce, size_t nonce_sz, long *body_len, unsigned *body_sum)
 {
-  static const int TMO = 6000;
+  const int TMO = resp_tmo;
   char hdr[8192];
   size_t n = 0, hend = 0;
   long clen = -1, got = 0;
@@ -452,6 +476,105 @@ static void *watchdog_main (void *arg)
   }
 }
 
+static int add_pair (int want_mod_match)
+{
+  int sv[2];
+  struct sockaddr_in sa;
+  if (0 != socketpair (AF_UNIX, SOCK_STREAM, 0, sv)) return -1;
+  if (want_mod_match)
+  {
+    /* thread pool: MHD_add_connection() picks the worker by `socket % pool size` */
+    int extra[64], n = 0, k;
+    while ((sv[0] % pin_mod) != pin_target && n < 64)
+    {
+      extra[n++] = sv[0];
+      sv[0] = dup (sv[0]);
+      if (sv[0] < 0) break;
+    }
+    for (k = 0; k < n; k++) close (extra[k]);
+    if (sv[0] < 0) { close (sv[1]); return -1; }
+  }
+  else
+    pin_target = sv[0] % pin_mod;
+  memset (&sa, 0, sizeof (sa));
+  sa.sin_family = AF_INET; sa.sin_port = htons (999); sa.sin_addr.s_addr = htonl (0x7f000001u);
+  if (MHD_YES != MHD_add_connection (d, sv[0], (struct sockaddr *) &sa, sizeof (sa))) { close (sv[1]); return -1; }
+  return sv[1];
+}
+
+static void *pin_helper_main (void *arg)
+{
+  (void) arg;
+  sem_wait (&pin_go);
+  pin_fd_b = add_pair (1);
+  sem_post (&pin_done);
+  return NULL;
+}
+
+static int one_get (int fd, char kind)
+{
+  char req[128], nonce[8];
+  long blen = 0; unsigned bsum = 0;
+  int hl = snprintf (req, sizeof (req), "GET /%c HTTP/1.1\r\nHost: h\r\n\r\n", kind);
+  if (0 != send_all (fd, req, (size_t) hl)) return -1;
+  (void) nonce;
+  return read_response (fd, NULL, 0, &blen, &bsum);
+}
+
+/* C18: a connection added from another thread while the daemon thread is taking over an earlier
+ * one must be served (flag `have_new` and the hand-over list change in one critical section) */
+static void scenario_pinadd (void)
+{
+  pthread_t ht;
+  int fa, code;
+  uint64_t t0;
+  sem_init (&pin_go, 0, 0); sem_init (&pin_done, 0, 0);
+  pthread_create (&ht, NULL, &pin_helper_main, NULL);
+  ST (pin_state, 1);
+  fa = add_pair (0);
+  if (fa < 0) { ST (pin_state, 0); sem_post (&pin_go); pthread_join (ht, NULL); return; }
+  t0 = now_ms ();
+  while (2 != LD (pin_state) && now_ms () - t0 < 3000) usleep (500);
+  if (2 != LD (pin_state)) { ST (pin_state, 0); sem_post (&pin_go); }
+  pthread_join (ht, NULL);
+  resp_tmo = 2000;
+  sc_pinadd = 0;
+  t0 = now_ms ();
+  code = one_get (fa, 's');
+  if (200 != code) sc_pinadd = 1;
+  if (pin_fd_b >= 0)
+  {
+    code = one_get (pin_fd_b, 's');
+    if (200 != code) sc_pinadd = 1;
+    close (pin_fd_b);
+  }
+  else sc_pinadd = 1;
+  sc_pin_ms = (long) (now_ms () - t0);
+  close (fa);
+  resp_tmo = 6000;
+}
+
+/* C18: a connection suspended in the handler and resumed from another thread while nothing else
+ * happens on the daemon must get its reply promptly (the resume must wake and re-run the loop) */
+static void scenario_quietresume (void)
+{
+  int fd, code;
+  uint64_t t0;
+  pin_mod = 1;
+  fd = add_pair (0);
+  if (fd < 0) return;
+  usleep (100000);
+  ST (quiet_delay_ms, 150);
+  resp_tmo = 2000;
+  t0 = now_ms ();
+  code = one_get (fd, 'u');
+  sc_quiet_ms = (long) (now_ms () - t0);
+  sc_quiet = (200 == code) ? 0 : 1;
+  ST (quiet_delay_ms, 0);
+  resp_tmo = 6000;
+  close (fd);
+}
+
 static int has (const char *list, const char *w)
 {
   size_t l = strlen (w);
@@ -528,6 +651,13 @@ int main (int argc, char **argv)
 
   pthread_create (&wth, NULL, &watchdog_main, (void *) (intptr_t) wd_ms);
   pthread_create (&rth, NULL, &resumer_main, (void *) (uintptr_t) (seed * 7919u + 1u));
+  if (f_add)
+  {
+    pin_mod = (npool > 1) ? npool : 1;
+    scenario_pinadd ();
+    if (f_susp) scenario_quietresume ();
+    usleep (50000);
+  }
   pthread_create (&mth, NULL, &monitor_main, NULL);
   for (i = 0; i < nclients; i++)
   {
@@ -586,10 +716,12 @@ int main (int argc, char **argv)
       bad = 1;
     printf ("result mode=%s pool=%s clients=%d seed=%u stop_ms=%ld req_ok=%ld req_fail=%ld conn_add=%ld conn_tcp=%ld add_fail=%ld "
             "susp=%ld resume=%ld auth_chk=%ld auth_req=%ld cb_blocks=%ld post=%ld opt=%ld abort=%ld handler=%ld completed=%ld "
-            "conn_started=%ld conn_closed=%ld not_closed=%ld double_close=%ld double_complete=%ld body_mismatch=%ld bad=%d\n",
+            "conn_started=%ld conn_closed=%ld not_closed=%ld double_close=%ld double_complete=%ld body_mismatch=%ld "
+            "pinadd=%d pinadd_ms=%ld quietresume=%d quietresume_ms=%ld bad=%d\n",
             mode, pool, nclients, seed, (long) (t1 - t0), n_req_ok, n_req_fail, n_conn_add, n_conn_tcp, n_add_fail,
             n_susp, n_resume, n_auth_chk, n_auth_req, n_cb_blocks, n_post, n_opt, n_abort, n_handler, n_completed,
-            n_started_cb, n_closed_cb, not_closed, n_double_close, n_double_complete, n_body_mismatch, bad);
+            n_started_cb, n_closed_cb, not_closed, n_double_close, n_double_complete, n_body_mismatch,
+            sc_pinadd, sc_pin_ms, sc_quiet, sc_quiet_ms, bad);
     fflush (stdout);
   }
   return bad ? 4 : 0;
